@@ -119,13 +119,30 @@ func (t *c13Tree) eval(vals []float64, ops []string, mode string) ov {
 	return c13Apply(ops[t.op], t.l.eval(vals, ops, mode), t.r.eval(vals, ops, mode), mode)
 }
 
-func (t *c13Tree) text(vals []float64, ops []string, root bool) string {
+// text renders the tree fully parenthesised. extra > 0 adds redundant pairs (a pair around a pair, around
+// a single operand, around the whole query), chosen by position: a group means the same however many
+// pairs are written around it.
+func (t *c13Tree) text(vals []float64, ops []string, root bool, extra int) string {
 	if t.op < 0 {
-		return "vector(" + fnum(vals[t.leaf]) + ")"
+		s := "vector(" + fnum(vals[t.leaf]) + ")"
+		if extra > 0 && (t.leaf+extra)%5 == 0 {
+			s = "(" + s + ")"
+		}
+		return s
 	}
-	s := t.l.text(vals, ops, false) + " " + ops[t.op] + " " + t.r.text(vals, ops, false)
+	s := t.l.text(vals, ops, false, extra) + " " + ops[t.op] + " " + t.r.text(vals, ops, false, extra)
 	if !root {
-		return "(" + s + ")"
+		s = "(" + s + ")"
+		if extra > 0 && (t.op+extra)%3 == 0 {
+			s = "(" + s + ")"
+		}
+		if extra > 0 && (t.op+extra)%7 == 0 {
+			s = "((" + s + "))"
+		}
+		return s
+	}
+	if extra > 0 && extra%4 == 0 {
+		s = "(" + s + ")"
 	}
 	return s
 }
@@ -254,8 +271,13 @@ func runC13(r *vk.Run) {
 			c.Count("nontrivial_chains", 1)
 		}
 		if withTrees && n >= 3 {
-			for _, t := range trees {
-				ptext := t.text(vals, ops, true)
+			for ti, t := range trees {
+				extra := 0
+				if (c.Idx+ti)%3 == 0 {
+					extra = 1 + (c.Idx+ti)%11
+					c.Count("parenthesisations_with_redundant_pairs", 1)
+				}
+				ptext := t.text(vals, ops, true, extra)
 				want := t.eval(vals, ops, mode)
 				got, err := c13Engine(c, ptext)
 				c.Count("parenthesisations", 1)
